@@ -25,6 +25,9 @@ def run(prog):
     fn = prog.find1(name="hash", self_adt="repr::cnf::CnfHasher", unit="rsdd-lib")
     te, cfg = fn.terms, fn.cfg
     out = []
+    if not any(c.callee.name == "lit_implied" for c in te.calls):
+        # the per-clause scan may have been extracted into a helper of the hasher
+        return helper_form(prog, fn) + [one_numbering(prog)]
 
     def site(name):
         cs = [c for c in te.calls if c.callee.name == name and "PartialModel" in c.callee.key()]
@@ -154,3 +157,109 @@ def one_numbering(prog):
         raise CheckerError("HS5: expected three enumerations of the clause list in CnfHasher::new, found %d" % n)
     return inst("HS", "%s:one-clause-numbering" % fn.npath, VIOLATION if errs else OK, fn, None,
                 "; ".join(errs) if errs else "state, pos_lits, neg_lits and weighted_cnf all number the constructor's clause list (%d enumerations)" % n)
+
+
+
+def helper_form(prog, hashfn):
+    """CnfHasher::hash with the literal loop in a private helper `h(clause, model) -> Option<product>`:
+       in the helper:  a true literal returns None with nothing multiplied; a false literal goes to the next literal with
+                       nothing multiplied; an unassigned literal multiplies its prime in; the loop's exit returns Some(product)
+       in hash:        None leads to the next clause with no multiplication or store; Some(p) is multiplied into the accumulator"""
+    out = []
+    key = hashfn.npath
+    cands = [g for g in prog.lib_fns if g.impl_self == "repr::cnf::CnfHasher" and g is not hashfn and
+             any(c.callee.name == "lit_implied" for c in g.terms.calls)]
+    names = ("satisfied-clause-skipped", "false-literal-skipped", "unassigned-literal-multiplied", "clause-product-accumulated")
+    if len(cands) != 1 or not any(c.callee.name == cands[0].name for c in hashfn.terms.calls):
+        return [inst("HS", "%s:%s" % (key, n), UNDECIDED, hashfn, None, "per-literal scan not found in hash or in one helper of the hasher") for n in names]
+    g = cands[0]
+    te, cfg = g.terms, g.cfg
+
+    def branch(name):
+        cs = [c for c in te.calls if c.callee.name == name and "PartialModel" in c.callee.key()]
+        if len(cs) != 1:
+            return None, None, None
+        nxt = g.blocks[cs[0].bb]["term"].get("target")
+        sw = g.blocks[nxt]["term"] if nxt is not None else None
+        if not sw or sw["k"] != "switch":
+            return cs[0], None, None
+        c = strip(te.switch_term[nxt][0])
+        inverted = c[0] == "un" and c[1] == "Not"
+        false_t = [tg for v, tg in sw["targets"] if v == "0"]
+        if not false_t:
+            return cs[0], None, None
+        t_, f_ = sw["otherwise"], false_t[0]
+        return (cs[0], f_, t_) if inverted else (cs[0], t_, f_)
+    imp, imp_true, _ = branch("lit_implied")
+    neg, neg_true, neg_false = branch("lit_neg_implied")
+    loops = sorted([h for h, body in cfg.loop_headers.items() if imp is not None and imp.bb in body], key=lambda h: len(cfg.loop_headers[h]))
+    if imp is None or neg is None or not loops or imp_true is None or neg_true is None:
+        return [inst("HS", "%s:%s" % (key, n), UNDECIDED, g, None, "helper %s: branches on the literal's status not recognised" % g.name) for n in names]
+    h_in = loops[0]
+    none_bbs = {a[0] for a in te.aggs if isinstance(a[1], tuple) and a[1][0] == "agg" and a[1][3] == "None"}
+    some = [a for a in te.aggs if isinstance(a[1], tuple) and a[1][0] == "agg" and a[1][3] == "Some"]
+
+    def muls(blocks):
+        return [c for c in te.calls if c.bb in blocks and c.callee.name in MULS]
+    # (a)
+    reach = cfg.reachable_from(imp_true, avoid={h_in})
+    errs = []
+    if muls(reach):
+        errs.append("a literal that is true in the model still multiplies (line %d) before the helper returns" % muls(reach)[0].line)
+    if not (reach & none_bbs):
+        errs.append("a literal that is true in the model does not make the helper return None (clause satisfied)")
+    if any(a[0] in reach for a in some):
+        errs.append("a satisfied clause can still return a product")
+    out.append(inst("HS", "%s:%s" % (key, names[0]), VIOLATION if errs else OK, g, None,
+                    "; ".join(errs) if errs else "true literal: helper returns None at once"))
+    # (b)
+    reach = cfg.reachable_from(neg_true, avoid={h_in})
+    errs = []
+    if muls(reach):
+        errs.append("a literal that is false in the model still multiplies its prime in (line %d)" % muls(reach)[0].line)
+    if not any(h_in in cfg.succ[b] for b in reach):
+        errs.append("a false literal does not continue with the next literal")
+    out.append(inst("HS", "%s:%s" % (key, names[1]), VIOLATION if errs else OK, g, None,
+                    "; ".join(errs) if errs else "false literal: next literal, nothing multiplied"))
+    # (c)
+    reach = cfg.reachable_from(neg_false, avoid={h_in}) if neg_false is not None else set()
+    m = muls(reach)
+    errs = []
+    if not m:
+        errs.append("an unassigned literal's prime is not multiplied into the clause product")
+    elif not any(any(x[0] == "mu" for x in mir.subterms(a)) for c in m for a in c.args):
+        errs.append("the product does not accumulate (no loop-carried operand)")
+    out.append(inst("HS", "%s:%s" % (key, names[2]), VIOLATION if errs else OK, g, None,
+                    "; ".join(errs) if errs else "clause product *= prime of each unassigned literal"))
+    # (d) helper returns Some(product); hash multiplies Some(p) in and skips None
+    errs = []
+    if not any(any(x[0] == "mu" and x[1] == h_in for x in mir.subterms(a[1])) for a in some):
+        errs.append("the helper does not return Some(clause product) after the last literal")
+    hte, hcfg = hashfn.terms, hashfn.cfg
+    calls = [c for c in hte.calls if c.callee.name == g.name]
+    hloops = sorted([h for h, body in hcfg.loop_headers.items() if calls and calls[0].bb in body], key=lambda h: -len(hcfg.loop_headers[h]))
+    if not calls or not hloops:
+        errs.append("?hash does not call the helper inside its clause loop")
+    else:
+        h_out = hloops[0]
+        nxt = hashfn.blocks[calls[0].bb]["term"].get("target")
+        sw = hashfn.blocks[nxt]["term"] if nxt is not None else None
+        if not sw or sw["k"] != "switch":
+            errs.append("?hash does not branch on the helper's Option")
+        else:
+            tg = {v: t for v, t in sw["targets"]}
+            none_t = tg.get("0")
+            some_t = tg.get("1", sw["otherwise"])
+            if none_t is not None:
+                r0 = hcfg.reachable_from(none_t, avoid={h_out})
+                bad = [c for c in hte.calls if c.bb in r0 and c.callee.name in MULS] + [s_ for s_ in hte.stores if s_[0] in r0]
+                if bad:
+                    errs.append("for a satisfied clause (None) hash still updates the accumulator")
+            r1 = hcfg.reachable_from(some_t, avoid={h_out})
+            m1 = [c for c in hte.calls if c.bb in r1 and c.callee.name in MULS]
+            if not m1 or not any(g.name in show(a) for c in m1 for a in c.args):
+                errs.append("the product returned by the helper is not multiplied into the accumulator")
+    from .base import verdict_of, errtext
+    out.append(inst("HS", "%s:%s" % (key, names[3]), verdict_of(errs), hashfn, None,
+                    errtext(errs) if errs else "Some(product) is multiplied into every accumulator entry; None skips the clause"))
+    return out
